@@ -8,7 +8,7 @@ from . import common, pipeline, ensemble
 from .common import Corr
 
 ID = "C01"
-LEAN_MODULES = ["TempestVerif.Props.C01"]
+LEAN_MODULES = ["TempestVerif.Props.C01", "TempestVerif.Props.C03"]   # C03: the kernel the pipeline takes from the tape
 RULE = ("whole-pipeline trace replay: real Sampler runs (kernel x resampler, clustering off, ESS mode, with and without a "
         "zero-likelihood prior region, 1-3 dimensions) are recorded with all randomness observed (prior draws, resampling "
         "uniforms, proposals with their log-likelihoods and Hastings factors, Metropolis uniforms); the Lean pipeline model "
@@ -50,7 +50,7 @@ def correspond(tier):
     rng = common.rng_for("C01")
     c = Corr("pipeline-trace-replay", "toleranced Float (decisions exact, near-ties counted)")
     configs = [(k, r) for k in ("tpcn", "rwm") for r in ("syst", "mult")]
-    n_runs = 8 if tier == "quick" else 80
+    n_runs = 24 if tier == "quick" else 160
     recs, lines = [], []
     for i in range(n_runs):
         kernel, resample = configs[i % 4]
@@ -89,7 +89,17 @@ def correspond(tier):
         if prob:
             c.disagree(input=cfg, impl=prob, model=ans[:300])
         c.sample({"config": cfg, "iterations": len(rec.impl), "betas": [round(it["beta"], 4) for it in rec.impl], "model": ans[:120]})
-    return [c]
+    return [c] + _dependency_suites(tier)
+
+
+def _dependency_suites(tier):
+    """the part of the pipeline the trace replay takes from the tape — proposal generation and its precomputed statistics — is
+    C03's model; its correspondence suites are re-run here so that a broken kernel also breaks THIS property's obligations"""
+    from . import c03
+    out = c03.correspond(tier)
+    for s_ in out:
+        s_.name = "dep:C03:" + s_.name
+    return out
 
 
 def search(tier, hints):
